@@ -15,11 +15,11 @@ pub type RawMode = u32;
 pub mod syscalls {
     use super::*;
 //@include prelude/syserr_opaque.rs
-//@item src/syscalls.rs :: struct OpenHow | sub.OpenHow
 //@use syscalls.openat2
     /// R7: `*OPENAT2_IS_SUPPORTED` (a Lazy<bool>): arbitrary in the proof
     #[verifier::external_body]
     pub fn openat2_is_supported() -> bool { unimplemented!() }
+//@use-missing syscalls.openat syscalls.openat_follow syscalls.readlinkat syscalls.mkdirat syscalls.mknodat syscalls.unlinkat syscalls.linkat syscalls.symlinkat syscalls.renameat syscalls.renameat2 syscalls.openat2
 }
 use syscalls::Error as SyscallError;
 use syscalls::OpenHow;
